@@ -14,6 +14,22 @@ namespace GlareModel.Scan
 def queue (P p : Nat) (xs : List α) : List α :=
   (xs.zipIdx.filter fun e => e.2 % P == p).map (·.1)
 
+universe u
+variable {α : Type u}
+
+/-- `Iterator::step_by(P)`: the first element, then every `P`-th one. -/
+def stepBy (P : Nat) : List α → List α
+  | [] => []
+  | x :: xs => x :: stepBy P (xs.drop (P - 1))
+termination_by l => l.length
+decreasing_by simp only [List.length_drop, List.length_cons]; omega
+
+/-- `expanded.iter().skip(p).step_by(P)` -/
+def skipStep (P p : Nat) (xs : List α) : List α := stepBy P (xs.drop p)
+
+def queueFrom (k P r : Nat) (xs : List α) : List α :=
+  ((xs.zipIdx k).filter fun e => e.2 % P == r).map (·.1)
+
 structure Stats where
   min : Option Int
   max : Option Int
